@@ -12,7 +12,7 @@ import (
 // finders, the markup parsers and the two-pass logic. docspec = template id; the
 // members inside a template rotate with the PRNG of the docGen.
 
-const nRichDocs = 14
+const nRichDocs = 18
 
 func pagerHTML(g *docGen, style string, n, k int) string {
 	var sb strings.Builder
@@ -90,6 +90,7 @@ func richDoc(id int, g *docGen) string {
 			` <font color="red">` + g.words(3) + `</font> <a href="javascript:x()"><b>` + g.words(2) + `</b></a></p>`)
 		body.WriteString(`<figure><img src="data:image/gif;base64,R0lGOD"><noscript><img src="/i/m1.png"></noscript><figcaption>` + g.words(5) + `</figcaption></figure>`)
 		body.WriteString(`<picture><source srcset="/i/m2-s.webp"><span>x</span></picture>`)
+		body.WriteString(`<figure><img src="/i/m6.png"><figcaption ` + g.pick("hidden", `style="display:none"`, "") + `><a href="/c">` + g.words(3) + `</a></figcaption></figure>`)
 		body.WriteString(`<img data-src="/i/m3.png" src="data:image/gif;base64,R0lGOD">`)
 		body.WriteString(`<ul><li>` + g.words(8) + `</li><li>` + g.words(9) + `<ol><li>` + g.words(4) + `</li></ol></li></ul>`)
 		body.WriteString(`<table><tr><th>` + g.words(1) + `</th><th>` + g.words(1) + `</th></tr><tr><td>` + g.words(2) + `<img src="/i/m4.png"></td><td>` + g.words(2) + `</td></tr></table>`)
@@ -131,6 +132,25 @@ func richDoc(id int, g *docGen) string {
 	case 12: // headings, pre, blockquote, hidden, forms
 		body.WriteString("<div><h1>" + g.words(5) + "</h1>" + story(1) + "<pre>" + g.words(10) + "</pre><blockquote><p>" + g.words(15) + "</p></blockquote>" +
 			`<div hidden>` + g.words(5) + `</div><form><input type="text" value="v"><button>` + g.words(1) + `</button></form>` + story(2) + "</div>")
+	case 13: // OpenGraph under a custom prefix declared by the document
+		pfx := g.pick("zqog", "news", "o")
+		decl := g.pick(`<html prefix="`+pfx+`: http://ogp.me/ns#">`, `<html xmlns:`+pfx+`="http://ogp.me/ns#">`)
+		return "<!DOCTYPE html>" + decl + "<head><title>" + g.words(3) + `</title><meta property="` + pfx + `:title" content="Custom Og ` + g.words(2) +
+			`"><meta property="` + pfx + `:type" content="article"><meta property="` + pfx + `:url" content="https://example.com/c"><meta property="` + pfx +
+			`:image" content="https://example.com/c.png"></head><body><div>` + story(3) + "</div></body></html>"
+	case 14: // schema.org items with missing pieces
+		body.WriteString(`<div itemscope itemtype="http://schema.org/ImageObject"><meta itemprop="representativeOfPage" content="true"><span itemprop="caption">` + g.words(2) + `</span></div>` +
+			`<div itemscope itemtype="http://schema.org/Article"><div itemprop="associatedMedia" itemscope itemtype="http://schema.org/ImageObject"><span itemprop="name">n</span></div>` +
+			`<span itemprop="author" itemscope itemtype="http://schema.org/Person"></span><span itemprop="publisher" itemscope itemtype="http://schema.org/Organization"></span>` +
+			`<div itemprop="image" itemscope itemtype="http://schema.org/ImageObject"><meta itemprop="width" content="x"></div></div>` +
+			`<div itemscope itemtype="http://schema.org/Unknown"><span itemprop="headline">h</span></div><div itemscope><span itemprop="name">bare</span></div>` +
+			"<div>" + story(3) + "</div>")
+	case 15: // two strong next links, the later one stronger; two equally strong ones to different pages
+		body.WriteString(`<div><a class="pagination" href="?pg=4">Next</a></div><div>` + story(3) + `</div><div><a class="pagination" href="?pg=3">Next</a> ` +
+			`<a href="?pg=1">Prev</a></div>`)
+	case 16: // ties: equally scored next / prev links to different pages
+		body.WriteString(`<div>` + story(3) + `</div><div><a href="?pg=5">Next</a> <a href="?pg=7">Next</a> <a href="?pg=9">next</a> <a href="?pg=0">Prev</a> <a href="?pg=11">Previous</a></div>` +
+			`<div><a href="/story/view/12">12</a> <a href="/story/view/13">13</a> <a href="?pg=12">12</a> <a href="?pg=13">13</a></div>`)
 	default: // a random abstract document through the doc-family concretiser
 		forest := randomForest(r, 14)
 		return g.page(forest, docPlaces[r.Intn(len(docPlaces))])
